@@ -108,6 +108,8 @@ class Unit:
         self.prop, self.config, self.cases, self.headers = prop, config, cases, headers
         self.mode, self.max_success, self.max_size, self.prelude = mode, max_success, max_size, prelude
         self.enum_budget, self.size_floor, self.timeout, self.poison = enum_budget, size_floor, timeout, poison
+        self.accept_fail = None     # regex: only failures whose message matches count for this unit (others are tallied as foreign)
+        self.seed_key = None        # override of the per-configuration rapidcheck seed key (C06: same draws in every configuration)
 
 
 def chunks(lst, n):
@@ -201,7 +203,7 @@ def run_unit(unit):
         if not objs:
             return res
         exe = os.path.join(wdir, "run")
-        link = [unit.config.compiler if unit.config.compiler == "g++" else "g++"] + objs + [ensure_engine(), "-o", exe] + LINK_FLAGS
+        link = [unit.config.compiler] + objs + [ensure_engine(), "-o", exe] + LINK_FLAGS + [e for e in unit.config.extra if e.startswith("-fsanitize")]
         rc, out = sh(link, timeout=600)
         if rc != 0:
             res["inconclusive"].append("link failed: " + out[-400:])
@@ -213,6 +215,8 @@ def run_unit(unit):
         outf = os.path.join(wdir, "out.jsonl")
         env = dict(os.environ)
         env["RC_PARAMS"] = "seed=%d max_success=%d max_size=%d" % (seed_for(unit), unit.max_success, unit.max_size)
+        env["ASAN_OPTIONS"] = "exitcode=98:detect_leaks=0:handle_segv=0:handle_sigbus=0:handle_abort=0:handle_sigill=0:handle_sigfpe=0:allocator_may_return_null=1:detect_stack_use_after_return=0"
+        env["UBSAN_OPTIONS"] = "halt_on_error=1:exitcode=98:print_stacktrace=0"
         start_after = None
         for _attempt in range(len(ok) + 1):
             cmd = [exe, "--mode", unit.mode, "--out", outf, "--size-floor", str(unit.size_floor), "--poison", str(unit.poison),
@@ -245,6 +249,10 @@ def run_unit(unit):
                     break
                 with open(outf, "a") as f:
                     f.write(json.dumps(dict(case=nxt[0], status="crash", msg="process died (rc=%d) %s" % (rc, out[-200:]), log=[], note="")) + "\n")
+            if rc == 98 and crashed:        # sanitizer report: put its summary line into the record
+                summ = [l for l in out.splitlines() if "SUMMARY:" in l or "runtime error:" in l]
+                if summ:
+                    patch_last_crash(outf, summ[0].strip()[:300])
                 last = nxt[0]
             start_after = last
         res["records"] += recs
@@ -253,9 +261,113 @@ def run_unit(unit):
         shutil.rmtree(wdir, ignore_errors=True)
 
 
+def patch_last_crash(outf, text):
+    lines = open(outf).read().splitlines()
+    for i in range(len(lines) - 1, -1, -1):
+        try:
+            r = json.loads(lines[i])
+        except ValueError:
+            continue
+        if r.get("status") == "crash":
+            r["msg"] = text
+            lines[i] = json.dumps(r)
+            break
+    with open(outf, "w") as f:
+        f.write("\n".join(lines) + "\n")
+
+
+class FuzzJob:
+    """libFuzzer campaign over a table of case bodies: one build, `procs` parallel processes with different -seed values."""
+    def __init__(self, prop, config, cases, headers, prelude="", runs=100000, procs=4, max_len=2048, timeout=900):
+        self.prop, self.config, self.cases, self.headers, self.prelude = prop, config, cases, headers, prelude
+        self.runs, self.procs, self.max_len, self.timeout = runs, procs, max_len, timeout
+        self.mode, self.accept_fail, self.seed_key = "rc", None, None
+
+
+def run_fuzz_job(job):
+    uid = hashlib.sha1(("fuzz|%s|%s|%s" % (job.prop, job.config.name, ",".join(c.id for c in job.cases))).encode()).hexdigest()[:12]
+    wdir = os.path.join(BUILD, job.prop, "fuzz_" + uid)
+    shutil.rmtree(wdir, ignore_errors=True)
+    os.makedirs(wdir)
+    res = dict(records=[], config=job.config.name, inconclusive=[], ncases=len(job.cases), compiled=0, ran=False)
+    try:
+        src = os.path.join(wdir, "tu.cpp")
+        with open(src, "w") as f:
+            f.write(render_tu(job, job.cases))
+        exe = os.path.join(wdir, "fuzz")
+        flags = [x for x in job.config.flags() if not x.startswith("-fsanitize") and not x.startswith("-fno-sanitize")]
+        cmd = ["clang++"] + flags + ["-w", "-g0", "-fsanitize=fuzzer,address,undefined", "-fno-sanitize-recover=undefined",
+                                    "-I" + REPO, "-I" + HARNESS, src, os.path.join(HARNESS, "vf_main_fuzz.cpp"), "-o", exe]
+        rc, out = sh(cmd, timeout=3000)
+        if rc != 0:
+            res["inconclusive"].append("fuzz target build failed: " + first_error(out))
+            return res
+        res["compiled"] = len(job.cases)
+        if not job.config.runnable():
+            res["inconclusive"].append("host cannot execute " + job.config.isa)
+            return res
+        res["ran"] = True
+        procs = []
+        for k in range(job.procs):
+            pdir = os.path.join(wdir, "p%d" % k)
+            os.makedirs(os.path.join(pdir, "corpus"))
+            env = dict(os.environ)
+            env["VF_FUZZ_STATS"] = os.path.join(pdir, "stats.json")
+            env["ASAN_OPTIONS"] = "detect_leaks=0:allocator_may_return_null=1:detect_stack_use_after_return=0"
+            fseed = int.from_bytes(hashlib.sha1(("%d|%s|%d" % (_SEED, uid, k)).encode()).digest()[:4], "big") or 1
+            log = open(os.path.join(pdir, "log.txt"), "wb")
+            p = subprocess.Popen([exe, "-runs=%d" % job.runs, "-seed=%d" % fseed, "-max_len=%d" % job.max_len, "-artifact_prefix=" + pdir + "/",
+                                  "-print_final_stats=1", "-rss_limit_mb=3000", "-timeout=60", os.path.join(pdir, "corpus")],
+                                 stdout=log, stderr=subprocess.STDOUT, env=env, cwd=pdir)
+            procs.append((p, pdir, log))
+        t0 = time.time()
+        agg, distinct = {}, 0
+        for p, pdir, log in procs:
+            try:
+                p.wait(timeout=max(1, job.timeout - (time.time() - t0)))
+            except subprocess.TimeoutExpired:
+                p.kill(); p.wait()
+                res["inconclusive"].append("fuzz process stopped at the wall-clock guard (inconclusive, not a violation)")
+            log.close()
+            txt = open(os.path.join(pdir, "log.txt"), errors="replace").read()
+            for m in re.finditer(r"^VF-FUZZ-RECORD (\{.*\})$", txt, re.M):
+                try:
+                    rec = json.loads(m.group(1))
+                except ValueError:
+                    continue
+                summ = [l for l in txt.splitlines() if "SUMMARY:" in l or "runtime error:" in l]
+                if rec.get("status") == "crash" and summ:
+                    rec["msg"] = summ[0].strip()[:300]
+                rec["note"] = "found by libFuzzer (structure-aware decode of the fuzzer's bytes into the draw journal)"
+                res["records"].append(rec)
+            for fn in os.listdir(pdir):
+                if fn.startswith(("timeout-", "oom-", "slow-unit-")):
+                    res["inconclusive"].append("libFuzzer %s (load noise, not a violation)" % fn.split("-")[0])
+            sp = os.path.join(pdir, "stats.json")
+            if os.path.exists(sp):
+                try:
+                    st = json.load(open(sp))
+                    distinct += st.get("distinct_nt", 0)
+                    for cid, (ev, nt) in st.get("cases", {}).items():
+                        a = agg.setdefault(cid, [0, 0]); a[0] += ev; a[1] += nt
+                except ValueError:
+                    pass
+        failed = {r["case"] for r in res["records"]}
+        first = True
+        for cid, (ev, nt) in sorted(agg.items()):
+            if cid in failed:
+                continue
+            res["records"].append(dict(case=cid, status="pass", evals=ev, nt=nt, distinct_nt=(distinct if first else 0), unjudged=0, ratio=0,
+                                       exhaustive=False, labels={"engine:libFuzzer": ev}, samples=[]))
+            first = False
+        return res
+    finally:
+        shutil.rmtree(wdir, ignore_errors=True)
+
+
 _SEED = int(os.environ.get("VERIF_SEED", "1") or "1")
 def seed_for(unit):
-    h = hashlib.sha1(("%d|%s|%s" % (_SEED, unit.prop, unit.config.name)).encode()).digest()
+    h = hashlib.sha1(("%d|%s|%s" % (_SEED, unit.prop, unit.seed_key or unit.config.name)).encode()).digest()
     v = int.from_bytes(h[:4], "big")
     return v or 1
 
@@ -310,7 +422,7 @@ def replay(path, times=1, quiet=False):
         if cfails:
             return times, times, cfails[0]
         exe = os.path.join(wdir, "run")
-        rc, out = sh(["g++"] + objs + [ensure_engine(), "-o", exe] + LINK_FLAGS, timeout=600)
+        rc, out = sh([cfg.compiler] + objs + [ensure_engine(), "-o", exe] + LINK_FLAGS + [e for e in cfg.extra if e.startswith("-fsanitize")], timeout=600)
         if rc != 0:
             raise SystemExit("replay link failed:\n" + out)
         logf = os.path.join(wdir, "log.txt")
@@ -321,7 +433,10 @@ def replay(path, times=1, quiet=False):
             outf = os.path.join(wdir, "out.jsonl")
             if os.path.exists(outf):
                 os.remove(outf)
-            rc, out = sh([exe, "--replay", logf, "--only", body["case"], "--out", outf], timeout=900)
+            env = dict(os.environ)
+            env["ASAN_OPTIONS"] = "exitcode=98:detect_leaks=0:handle_segv=0:handle_sigbus=0:handle_abort=0:allocator_may_return_null=1"
+            env["UBSAN_OPTIONS"] = "halt_on_error=1:exitcode=98"
+            rc, out = sh([exe, "--replay", logf, "--only", body["case"], "--out", outf], timeout=900, env=env)
             recs = [json.loads(l) for l in open(outf)] if os.path.exists(outf) else []
             last = recs[-1] if recs else dict(case=body["case"], status="crash", msg="died rc=%d" % rc)
             if last.get("status") != "pass":
@@ -360,7 +475,7 @@ def run_property(prop, mod, tier, seed):
     order = sorted(range(len(units)), key=lambda i: -len(units[i].cases))
     results = [None] * len(units)
     with ThreadPoolExecutor(NPROC) as ex:
-        futs = {ex.submit(run_unit, units[i]): i for i in order}
+        futs = {ex.submit(run_fuzz_job if isinstance(units[i], FuzzJob) else run_unit, units[i]): i for i in order}
         for f in as_completed(futs):
             results[futs[f]] = f.result()
     # ---- aggregate
@@ -370,6 +485,7 @@ def run_property(prop, mod, tier, seed):
     failures = []
     exhaustive_all = True
     instances_run = 0
+    foreign = 0
     for u, r in zip(units, results):
         pc = per_cfg.setdefault(r["config"], dict(instances=0, evaluations=0, failures=0, ran=r["ran"]))
         for m in r["inconclusive"]:
@@ -390,6 +506,9 @@ def run_property(prop, mod, tier, seed):
                     c = lookup["cases"].get(rec["case"])
                     samples.append(dict(case=rec["case"], config=r["config"], cpp=c.line if c else "", **rec["samples"][0]))
             if rec.get("status") != "pass":
+                if u.accept_fail and rec.get("status") in ("fail", "compile_fail") and not re.search(u.accept_fail, rec.get("msg", "")):
+                    foreign += 1
+                    continue
                 pc["failures"] += 1
                 failures.append(rec)
     # ---- triage failures
@@ -438,7 +557,7 @@ def run_property(prop, mod, tier, seed):
                exhaustive=bool(exhaustive_all and getattr(mod, "EXHAUSTIVE_SPACE", None) and not inconclusive),
                nontrivial_evaluations=nt, unjudged=unjudged, instances=len(lookup["cases"]), instance_runs=instances_run,
                classes=dict(sorted(labels.items())), per_config=per_cfg, worst_error_over_bound=worst_ratio,
-               inconclusive=inconclusive[:20], unreproducible=unreproducible,
+               inconclusive=inconclusive[:20], unreproducible=unreproducible, foreign_semantic_failures_not_counted=foreign,
                known_findings_seen={k: dict(failing_runs=v["n"], example_case=v["example"]["case"], example_cfg=v["example"]["cfg"],
                                             example_msg=v["example"].get("msg", "")[:200]) for k, v in known_hit.items()},
                failing_instances=[dict(case=v["case"], cfgs=v["cfgs"], msg=v["msg"][:300]) for v in violations[:40]])
